@@ -9,9 +9,9 @@ func safetyRun(arm func(*Sim)) func(*Tape, bool) *RunResult {
 func init() {
 	register(&PropSpec{
 		ID: "C01",
-		Run: safetyRun(func(s *Sim) {
+		Run: mixRun(12, RefRun(refHostile), safetyRun(func(s *Sim) {
 			s.AddOracle(NewOracleC01(s))
-		}),
+		})),
 		Rule: "a run is non-trivial iff >= 2 honest nodes accepted a block at one height while a faulty participant existed or a partition/faction fault was active; distinct = distinct ordered delivery sequences (hash of (recipient, payload hash) in delivery order)",
 	})
 	register(&PropSpec{
@@ -35,9 +35,9 @@ func init() {
 		Rule: "a run is non-trivial iff (a) a proposal with missing transactions was accepted (and requested) inside an OnTransaction call, i.e. while completing an earlier proposal (counted separately as oracle_notes.obligation_opened_inside_OnTransaction), or (b) the last supplied transaction completed a block that failed verification and was answered by a change-view request, or (c) a requested transaction was supplied after a timeout or another consensus payload had had an effect on the node; distinct = distinct ordered delivery sequences"})
 	register(&PropSpec{ID: "C13", Run: runC13,
 		Rule: "each evaluation runs one tape twice: with the special node (a validator with the watch-only flag, else an observer) running under the direct oracle (no Broadcast / Block.Sign / PreBlock.SetData ever), and with that node never started; the other nodes' canonical traces must be identical; non-trivial iff a validator with the watch-only flag set was the primary of its current height and view at least once; distinct = distinct ordered delivery sequences"})
-	register(&PropSpec{ID: "C08", Run: simpleRun(SyncScenario, func(s *Sim) { s.AddOracle(NewOracleC08(s)); s.AddOracle(NewOracleC01(s)) }),
+	register(&PropSpec{ID: "C08", Run: mixRun(10, RefRun(refSync), simpleRun(SyncScenario, func(s *Sim) { s.AddOracle(NewOracleC08(s)); s.AddOracle(NewOracleC01(s)) })),
 		Rule: "a run is non-trivial iff some payload reached a node before it had entered the height or view it belongs to (it was cached) in a run whose delivery order is tape-permuted; distinct = distinct ordered delivery sequences"})
-	register(&PropSpec{ID: "C09", Run: mixRun(8, directedLockRun(func(s *Sim) { s.AddOracle(NewOracleC09(s)); s.AddOracle(NewOracleC01(s)) }), simpleRun(GSTScenario, func(s *Sim) { s.AddOracle(NewOracleC09(s)); s.AddOracle(NewOracleC01(s)) })),
+	register(&PropSpec{ID: "C09", Run: mixRun(12, RefRun(refSilent), mixRun(8, directedLockRun(func(s *Sim) { s.AddOracle(NewOracleC09(s)); s.AddOracle(NewOracleC01(s)) }), simpleRun(GSTScenario, func(s *Sim) { s.AddOracle(NewOracleC09(s)); s.AddOracle(NewOracleC01(s)) }))),
 		Rule: "a run is non-trivial iff validators were silent from the start, or a partition healed, or a validator restarted, before the network became synchronous; distinct = distinct ordered delivery sequences"})
 	register(&PropSpec{ID: "C15", Run: simpleRun(ClockScenario, func(s *Sim) { s.AddOracle(NewOracleC15(s)) }),
 		Rule: "a run is non-trivial iff some proposal was made while the proposer's clock was not ahead of the previous block's timestamp (skew or backward step); distinct = distinct ordered delivery sequences"})
